@@ -79,6 +79,13 @@ def judge(case) -> Verdict:
                     elif how == "line" and mem:
                         addr.items[0].line = f"{R.int2ip(new[0])} {R.int2ip(new[1])}"
                         mem[0] = new
+                    elif how == "replace" and mem:
+                        # the group now holds one far-away host: whatever it covered before is uncovered
+                        far = R.ip2int("203.0.113.7")
+                        while len(addr.items) > 1:
+                            addr.items.pop()
+                        addr.items[0].line = f"{R.int2ip(far)} 0.0.0.0"
+                        mem[:] = [[far, 0]]
                     else:
                         continue
                     done += 1
@@ -186,7 +193,7 @@ def case_st(draw, tier):
                         multi=True))
     case = {"acl": acl, "skip": draw(st.sampled_from(A.SKIPS))}
     if draw(st.sampled_from([True, False, False])):
-        case["edits"] = [[draw(st.integers(0, 9)), draw(st.sampled_from(["append", "pop", "pop", "line"])),
+        case["edits"] = [[draw(st.integers(0, 9)), draw(st.sampled_from(["append", "pop", "line", "replace", "replace"])),
                           [draw(G.base_st()), draw(G.wildmask_st(2))]] for _ in range(draw(st.integers(1, 3)))]
     return case
 
